@@ -73,7 +73,7 @@ pub fn total_dump(p: &Puppet, o: &DumpOpts, plan: Vec<(String, Alt)>, what: &str
 
 fn sp_alphabet(a: &Addr, hole: u64) -> Vec<u64> {
     let (lo, hi) = a.main_stack;
-    vec![hi - 0x1800, 0, 1, 8, 4095, 4096, lo.wrapping_sub(8), lo, lo + 4095, lo + 1, hi - 8, hi, hi + 8, hole, hole + 4095, (1 << 47) - 4096, 1 << 47, 1 << 63, u64::MAX - 4095 - (1 << 20), u64::MAX - (1 << 20) + 1, u64::MAX - 4095, u64::MAX - 7, u64::MAX]
+    vec![hi - 0x1800, 0, 1, 8, 4095, 4096, lo.wrapping_sub(8), lo, lo + 4095, lo + 1, hi - 8, hi, hi + 8, hole, hole + 4095, (1 << 47) - 4096, 1 << 47, 1 << 63, u64::MAX - 4095 - (1 << 20), u64::MAX - (1 << 20) + 1, u64::MAX - 4095, u64::MAX - 7, u64::MAX, lo.wrapping_sub(2048), lo.wrapping_sub(4096), lo.wrapping_sub((1 << 20) - 8), lo.wrapping_sub((1 << 20) + 8)]
 }
 
 fn ip_alphabet(a: &Addr, hole: u64) -> Vec<u64> {
@@ -156,7 +156,8 @@ pub enum Case {
     /// crash context registers + option bits (1 sanitize, 2 limit, 4 skip)
     Ctx { sp: usize, ip: usize, opts: u8 },
     /// a spin thread whose live rsp is hostile
-    LiveSp { sp: usize, opts: u8 },
+    /// `crowd`: that many block threads are created first, so the spin thread sits at a late list position
+    LiveSp { sp: usize, opts: u8, crowd: usize },
     /// direct auxv values: indices into small alphabets
     Auxv { phnum: usize, phdr: usize, gate: usize, entry: usize },
     /// one mutated 8-byte field of the synthetic linker data (field index, value index), or a chain shape
@@ -180,7 +181,7 @@ impl Case {
     pub fn to_json(&self) -> Value {
         match self {
             Case::Ctx { sp, ip, opts } => json!({"family": "ctx", "sp": sp, "ip": ip, "opts": opts}),
-            Case::LiveSp { sp, opts } => json!({"family": "live-sp", "sp": sp, "opts": opts}),
+            Case::LiveSp { sp, opts, crowd } => json!({"family": "live-sp", "sp": sp, "opts": opts, "crowd": crowd}),
             Case::Auxv { phnum, phdr, gate, entry } => json!({"family": "auxv", "phnum": phnum, "phdr": phdr, "gate": gate, "entry": entry}),
             Case::Linker { field, value } => json!({"family": "linker", "field": field, "value": value}),
             Case::LinkerShape { shape } => json!({"family": "linker-shape", "shape": shape}),
@@ -196,7 +197,7 @@ impl Case {
         let g = |k: &str| v.get(k).and_then(|x| x.as_u64()).map(|x| x as usize);
         Some(match v.get("family")?.as_str()? {
             "ctx" => Case::Ctx { sp: g("sp")?, ip: g("ip")?, opts: g("opts")? as u8 },
-            "live-sp" => Case::LiveSp { sp: g("sp")?, opts: g("opts")? as u8 },
+            "live-sp" => Case::LiveSp { sp: g("sp")?, opts: g("opts")? as u8, crowd: g("crowd").unwrap_or(0) },
             "auxv" => Case::Auxv { phnum: g("phnum")?, phdr: g("phdr")?, gate: g("gate")?, entry: g("entry")? },
             "linker" => Case::Linker { field: g("field")?, value: g("value")? },
             "linker-shape" => Case::LinkerShape { shape: g("shape")? },
@@ -384,8 +385,11 @@ fn run_on_host(h: &mut Host, c: &Case) -> Verdict {
 /// Cases that need a target of their own.
 pub fn run_standalone(c: &Case) -> Verdict {
     match c {
-        Case::LiveSp { sp, opts } => {
+        Case::LiveSp { sp, opts, crowd } => {
             let mut h = make_host();
+            for _ in 0..*crowd {
+                h.b.p.add_thread(Kind::Block);
+            }
             let sps = sp_alphabet(&h.addr, h.hole);
             let v = sps[*sp];
             if v == 0 {
@@ -552,7 +556,13 @@ pub fn run_real_cases(thorough: bool) -> Vec<(Case, Verdict)> {
     }
     for sp in 0..n_sp {
         for opts in [0u8, 3] {
-            cases.push(Case::LiveSp { sp, opts });
+            cases.push(Case::LiveSp { sp, opts, crowd: 0 });
+        }
+        // the same hostile stack pointers on a thread at a list position >= 20 with the size limit engaged
+        for opts in [2u8, 3, 6] {
+            if thorough || opts != 6 {
+                cases.push(Case::LiveSp { sp, opts, crowd: 21 });
+            }
         }
     }
     for phnum in 0..8 {
@@ -655,7 +665,7 @@ pub fn run_real_cases(thorough: bool) -> Vec<(Case, Verdict)> {
 }
 
 pub fn run(ctx: &Ctx, rep: &mut Report) {
-    rep.rule = "families: crash-context rsp (23 values) x rip (24) x 3 option sets; live spin-thread rsp (23) x 2; direct auxv phnum(8) x phdr(8) x gate(4) x entry(4); synthetic linker data: every 8-byte field of 2 program headers, 4 dynamic entries, r_debug, 3 link_maps x 22 boundary values + 12 chain shapes; 10 kinds of /dev-backed mappings; 12 hostile thread names x 3 threads; 26 caller-configuration extremes; every libc call of the baseline trace x its alternatives (errno, 1-byte reads); mutated ELF images in a file mapping; mapping names lib.so.<up to 4(5) components over 13 letters> in-process. nontrivial = cases that deviate from the benign default".into();
+    rep.rule = "families: crash-context rsp (27 values) x rip (24) x 3 option sets; live spin-thread rsp (27) x 2, and x 2..3 option sets at a list position >= 20 with the size limit engaged; direct auxv phnum(8) x phdr(8) x gate(4) x entry(4); synthetic linker data: every 8-byte field of 2 program headers, 4 dynamic entries, r_debug, 3 link_maps x 22 boundary values + 12 chain shapes; 10 kinds of /dev-backed mappings; 12 hostile thread names x 3 threads; 26 caller-configuration extremes; every libc call of the baseline trace x its alternatives (errno, 1-byte reads); mutated ELF images in a file mapping; mapping names lib.so.<up to 4(5) components over 13 letters> in-process. nontrivial = cases that deviate from the benign default".into();
     rep.assume("'bounded time' is checked as 20 s per dump on targets with a few MiB of readable memory");
     let thorough = ctx.tier.is_thorough();
     if let Some(case) = &ctx.replay {
